@@ -107,7 +107,7 @@ func EvaluateMul(lhs, rhs system.Any) (system.Any, error) {
 		return nil, typeMismatch(Mul, lhs, rhs)
 	case system.Decimal:
 		if right, ok := rhs.(system.Decimal); ok {
-			return left.Mul(right), nil
+			return left.Product(right)
 		}
 		if _, ok := rhs.(system.Quantity); ok {
 			return nil, fmt.Errorf("%w: PHP-7340", ErrToBeImplemented)
